@@ -322,34 +322,137 @@ Definition is_start_close (l : tlabel) : bool := match l with StartClose => true
 Definition is_send_on_closed (l : tlabel) : bool := match l with SendOnClosed _ => true | _ => false end.
 
 (* everything C12 asks of one reachable state of the asynchronous system *)
+Definition ck_closed (c : tcfg) (m : smap) (s : tstate) : bool :=
+  forallb (fun ls => in_map m (snd ls)) (tenabled c s).
+(* no panic: no send on a closed channel, no double close *)
+Definition ck_safe (c : tcfg) (s : tstate) : bool :=
+  negb (crashed s) && forallb (fun ls => negb (is_send_on_closed (fst ls)) && negb (crashed (snd ls))) (tenabled c s).
+(* no deadlock: a non-final state has a transition; once Close has started it has one that is neither a tick nor
+   the processor turning busy *)
+Definition ck_live (c : tcfg) (s : tstate) : bool :=
+  is_final s
+  || (match tenabled c s with [] => false | _ => true end
+      && (negb (close_started s) || existsb (fun ls => negb (is_env (fst ls))) (tenabled c s))).
+(* after Close has started every transition that is not a tick / PBusy lowers the rank *)
+Definition ck_rank (c : tcfg) (s : tstate) : bool :=
+  negb (close_started s) || forallb (fun ls => is_env (fst ls) || (rank c (snd ls) <? rank c s)%N) (tenabled c s).
+(* a final state stays final; close_started is never undone *)
+Definition ck_stable (c : tcfg) (s : tstate) : bool :=
+  (negb (is_final s) || forallb (fun ls => is_final (snd ls)) (tenabled c s))
+  && (negb (close_started s) || forallb (fun ls => close_started (snd ls)) (tenabled c s)).
+(* the processor is never inside the hand-shake; shutdownAppHarvest is enabled whenever Close was not called yet
+   and leaves the processor where it was *)
+Definition ck_proc (c : tcfg) (s : tstate) : bool :=
+  match ps s with PW => false | _ => true end
+  && (close_started s
+      || existsb (fun ls => is_start_close (fst ls) && pst_eqb (ps (snd ls)) (ps s)) (tenabled c s)).
+
 Definition check_state (c : tcfg) (m : smap) (s : tstate) : bool :=
-  let en := tenabled c s in
-  (* the set is closed under transitions *)
-  forallb (fun ls => in_map m (snd ls)) en
-  (* no panic: no send on a closed channel, no double close *)
-  && negb (crashed s) && forallb (fun ls => negb (is_send_on_closed (fst ls))) en
-  (* no deadlock: a non-final state has a transition; once Close has started it has one that is not a
-     tick / the processor turning busy, and every such transition lowers the rank *)
-  && (is_final s || match en with [] => false | _ => true end)
-  && (is_final s || negb (close_started s) || existsb (fun ls => negb (is_env (fst ls))) en)
-  && (negb (close_started s) || forallb (fun ls => is_env (fst ls) || (rank c (snd ls) <? rank c s)%N) en)
-  (* a final state stays final *)
-  && (negb (is_final s) || forallb (fun ls => is_final (snd ls)) en)
-  (* the processor is never inside the hand-shake, and shutdownAppHarvest is enabled whenever Close was not called *)
-  && match ps s with PW => false | _ => true end
-  && (close_started s || existsb (fun ls => is_start_close (fst ls)) en).
+  ck_closed c m s && ck_safe c s && ck_live c s && ck_rank c s && ck_stable c s && ck_proc c s.
 
 Definition check_all (c : tcfg) (fuel : nat) : bool :=
   let m := reach_map c fuel in
   in_map m (tinit c) && forallb (fun ks => check_state c m (snd ks)) (PositiveMap.elements m).
 
-(* the synchronous variant: some reachable state has the processor inside Close with nothing but ticks enabled *)
-Definition sync_deadlock (c : tcfg) (fuel : nat) : bool :=
-  existsb (fun ks => let s := snd ks in
-                     match ps s with PW => true | _ => false end && negb (is_final s)
-                     && forallb (fun ls => is_env (fst ls)) (tenabled c s))
-          (PositiveMap.elements (reach_map c fuel)).
+Fixpoint trun (c : tcfg) (s : tstate) (tr : list tlabel) : option tstate :=
+  match tr with
+  | [] => Some s
+  | l :: r => match tstep_fn c s l with Some s' => trun c s' r | None => None end
+  end.
+
+(* a state in which the processor sits inside a synchronous Close and only ticks can happen *)
+Definition processor_stuck (c : tcfg) (s : tstate) : bool :=
+  match ps s with PW => true | _ => false end && negb (is_final s)
+  && forallb (fun ls => is_env (fst ls)) (tenabled c s).
 
 Definition cfg1 : tcfg := {| n_trig := 1; grouped := false; sync_close := false |}.
 Definition cfg6 : tcfg := {| n_trig := 6; grouped := true; sync_close := false |}.
 Definition sync_of (c : tcfg) : tcfg := {| n_trig := n_trig c; grouped := grouped c; sync_close := true |}.
+
+(* ---- trace inclusion for the correspondence runs ----
+   The harness plays the environment (ticks, the processor's receive, Close) and cannot see the goroutines'
+   internal hand-shakes: accepts simulates the LTS on sets of states, closing under the internal (tau) labels.
+   A ghost variable remembers which trigger's type the forwarder holds, so that the type received by the
+   processor can be compared (the core LTS does not need it). *)
+Definition is_tau (l : tlabel) : bool :=
+  match l with
+  | TakeTick _ | Deliver _ | CancelT _ | ConfirmT _ | BCancel | MCancel _ | MConfirm _ | BConfirm
+  | TOShutdown | CloseTrigger | CloseCancel | FClosed | SendOnClosed _ => true
+  | _ => false
+  end.
+
+Record istate := { core : tstate; fk : nat }.
+Definition ikey (s : istate) : positive := Pos.add (Pos.mul (encode (core s)) 8) (Pos.of_succ_nat (fk s)).
+Definition ighost (l : tlabel) (old : nat) : nat := match l with Deliver k => k | _ => old end.
+Definition istep (c : tcfg) (s : istate) (l : tlabel) : option istate :=
+  match tstep_fn c (core s) l with
+  | Some s' => Some {| core := s'; fk := ighost l (fk s) |}
+  | None => None
+  end.
+Definition tau_succs (c : tcfg) (s : istate) : list istate :=
+  flat_map (fun ls => if is_tau (fst ls) then [{| core := snd ls; fk := ighost (fst ls) (fk s) |}] else [])
+           (tenabled c (core s)).
+
+Definition imap := PositiveMap.t istate.
+Definition iadd (acc : list istate * imap) (s : istate) : list istate * imap :=
+  match PositiveMap.find (ikey s) (snd acc) with
+  | Some _ => acc
+  | None => (s :: fst acc, PositiveMap.add (ikey s) s (snd acc))
+  end.
+Fixpoint iclose (c : tcfg) (fuel : nat) (frontier : list istate) (m : imap) : option imap :=
+  match frontier with
+  | [] => Some m
+  | _ => match fuel with
+         | O => None
+         | S f => let r := fold_left (fun acc s => fold_left iadd (tau_succs c s) acc) frontier ([], m) in
+                  iclose c f (fst r) (snd r)
+         end
+  end.
+Definition iclosure (c : tcfg) (l : list istate) : option (list istate) :=
+  let r := fold_left iadd l ([], PositiveMap.empty istate) in
+  match iclose c 400 (fst r) (snd r) with
+  | Some m => Some (map snd (PositiveMap.elements m))
+  | None => None
+  end.
+
+Inductive vev :=
+| VL (l : tlabel)          (* Tick k / TickDrop k / PBusy / PIdle / StartClose performed by the harness *)
+| VRecv (k : nat)          (* the processor received the harvest type of trigger k *)
+| VQuiet                   (* after a long wait: nothing internal is enabled and no delivery is pending to a receptive processor *)
+| VCloseDone (b : bool)    (* Close has returned / has not *)
+| VGone (b : bool).        (* the goroutines of the AppHarvest (triggers, broadcaster, forwarder, Close) are all gone / not *)
+
+Definition goroutines_gone (s : tstate) : bool :=
+  forallb tst_done (ts s) && match fs s with FD => true | _ => false end
+  && match bs s with BNone | BD => true | _ => false end
+  && match cs s with CD => true | _ => false end.
+
+Definition quiet (c : tcfg) (s : tstate) : bool :=
+  forallb (fun ls => negb (is_tau (fst ls))) (tenabled c s)
+  && negb (match fs s, ps s with FS, PR => true | _, _ => false end).
+
+Definition vstep (c : tcfg) (ss : list istate) (e : vev) : option (list istate) :=
+  match e with
+  | VL l => iclosure c (flat_map (fun s => match istep c s l with Some s' => [s'] | None => [] end) ss)
+  | VRecv k => iclosure c (flat_map (fun s => if fk s =? k then match istep c s Harvest with Some s' => [s'] | None => [] end else []) ss)
+  | VQuiet => Some (filter (fun s => quiet c (core s)) ss)
+  | VCloseDone b => Some (filter (fun s => Bool.eqb (match cs (core s) with CD => true | _ => false end) b) ss)
+  | VGone b => Some (filter (fun s => Bool.eqb (goroutines_gone (core s)) b) ss)
+  end.
+
+(* result: 0 = accepted; k+1 = the k-th event (from 0) cannot be matched; 65535 = closure fuel exhausted *)
+Fixpoint vrun (c : tcfg) (ss : list istate) (evs : list vev) (k : N) : N :=
+  match evs with
+  | [] => 0%N
+  | e :: r => match vstep c ss e with
+              | Some [] => N.succ k
+              | Some ss' => vrun c ss' r (N.succ k)
+              | None => 65535%N
+              end
+  end.
+
+Definition taccepts (c : tcfg) (evs : list vev) : N :=
+  match iclosure c [{| core := tinit c; fk := 0 |}] with
+  | Some ss => vrun c ss evs 0%N
+  | None => 65535%N
+  end.
